@@ -571,6 +571,18 @@ def run(ctx):
            key="R10.13:rtosc_convert_to_range:modes",
            what="the printer has the count of a run confirmed only for %s; a run with step +-1 is printed without its second value and read back by taking the direction from first and last - a run that wraps around the end of its type (2147483646 2147483647 -2147483648 ...) reads back as something else" % sorted(modes13))
 
+    # ---- R10.15: the reader's side of a compressed run - what the scanner counts a range on from (shared with C11 R11.17)
+    ctx.rule("R10.15", "LEFT-NEIGHBOUR (scanner): printed text `5x7 8 9 ... 12` puts a repetition two arguments in front of a range; the statements of rtosc_scan_arg_val that choose the value the range counts on from, "
+                       "evaluated on 13 slot layouts, take the slot before lhs after a scalar or a repetition, the last element of a range with delta, nothing after an array")
+    from ..rules import llhs as LL
+    try:
+        bad15, n15 = LL.check(u)
+    except FD.Unknown as e:
+        raise AnalysisBroken("R10.15: the scanner's choice of a range's left neighbour is not evaluable: %s" % e)
+    ctx.ob("R10.15", "left neighbour of a range, evaluated", not bad15, site=A.where(u.function("rtosc_scan_arg_val")), detail={"layouts": n15, "mismatches": bad15[:4]},
+           what="the scanner counts a printed range on from the wrong value: %s" % bad15[:3])
+
+
 def _inside10(root, node):
     nid = node.get("id")
     for x_ in A.walk(root):
